@@ -208,7 +208,7 @@ func (p *parser) parseObjectTypeDefinition(description descriptionWithComment) *
 
 func (p *parser) parseImplementsInterfaces() []string {
 	var types []string
-	if p.peek().Value == "implements" {
+	if peek := p.peek(); peek.Kind == lexer.Name && peek.Value == "implements" {
 		p.next()
 		// optional leading ampersand
 		p.skip(lexer.Amp)
